@@ -47,6 +47,14 @@ def setitem_oracle(bc, boolnd):
 def rule_setitem(ctx):
     ctx.rule('R1', 'copy before write', 4)
     ctx.rule('R2', 'read/write twins', 3)
+    # the structural reading of _setitem on trial: when it does not recognise how the writer is chosen and called, the dispatch scenarios of _setitem decide (which
+    # worker receives which resolved index, on the array or on its copy, what is returned)
+    from ..report import on_trial
+    on_trial(ctx, _setitem_structural, [BASES + 'AbstractDimArray._setitem'], ('R1', 'R2'), '_setitem')
+    _copy_is_whole(ctx)
+
+
+def _setitem_structural(ctx):
     fi = ctx.fn(BASES + 'AbstractDimArray._setitem')
     gi = ctx.fn(BASES + 'AbstractHasAxes._get_indices')
     for inplace, boolnd in itertools.product([False, True], [False, True]):
@@ -122,6 +130,10 @@ def rule_setitem(ctx):
         if ok:
             ctx.holds('R1', inst)
             ctx.holds('R2', 'index resolution shared with reads: ' + inst)
+    _same_predicate(ctx, fi)
+
+
+def _copy_is_whole(ctx):
     # the copy that is written into must be the whole array: values, axes, metadata *and* the per-instance indexing mode (an array created while indexing.by was
     # 'position' keeps resolving indices by position; a copy that falls back to the current option would write other cells than a[idx] reads)
     cp = ctx.fn(CLS + 'copy')
@@ -136,6 +148,9 @@ def rule_setitem(ctx):
             ctx.violated('R1', cp, 'return ' + T.show(v)[:140], 'DimArray.copy() rebuilds the array from values, axes and attrs only: the per-instance indexing mode (_indexing, '
                          '_indexing_broadcast) falls back to the current global option, so put(..., inplace=False) / a[idx] = v on the copy resolves the index differently from '
                          'the read a[idx] on the original (copy.deepcopy(self), or hand _indexing= / _indexing_broadcast= on)', node=p.node)
+
+
+def _same_predicate(ctx, fi):
     # same N-d boolean predicate on both sides
     g = ctx.fn(BASES + 'AbstractDimArray._getitem')
     evg = run(ctx, g, bind={'broadcast': T.CONST_NONE, 'broadcast_arrays': T.CONST_NONE}, mode='join')
